@@ -187,6 +187,7 @@ func (x *Exec) signed(c *Client, userIdx int, m *ref.Msg, defect string, seed ui
 	withUser, withRealm, withNonce, withMI := true, true, true, true
 	hmacMode := ""
 	alter := false
+	emptyKey := false
 	switch defect {
 	case "":
 	case "nomi":
@@ -201,6 +202,12 @@ func (x *Exec) signed(c *Client, userIdx int, m *ref.Msg, defect string, seed ui
 		valid = false
 	case "unknownuser":
 		cr.user = "mallory"
+		valid = false
+	case "unknownuser-emptykey":
+		// a user the handler does not know, signed with the empty key a careless server
+		// would end up using for it
+		cr.user = "mallory"
+		emptyKey = true
 		valid = false
 	case "hmac-trunc", "hmac-ext", "hmac-flip":
 		hmacMode = defect
@@ -285,6 +292,9 @@ func (x *Exec) signed(c *Client, userIdx int, m *ref.Msg, defect string, seed ui
 		return raw, valid, judged
 	}
 	key := ref.LongTermKey(cr.user, cr.realm, cr.pass)
+	if emptyKey {
+		key = nil
+	}
 	signedRaw := ref.AddIntegrity(raw, key)
 	switch hmacMode {
 	case "hmac-flip":
